@@ -50,6 +50,18 @@ CHECKS = {
  "C20": dict(level="other", technique="enumerated necessary conditions checked syntactically on every distinct schematic instance",
    text="Universal well-typedness of generated code is not decidable here; decided are necessary conditions, one per known way generated code fails to type-check, on every distinct instance of every role/shape/path: parses as items; operands of the generated && chain are atomic; no nested fn item names a field type (E0401 with generic field types - recorded finding F11); no free fn reuses unexpanded generics (E0411 with Self in a where-clause - recorded finding F12); no zero-arm match on a reference; no fixed generic or lifetime names at impl/method level. Body obligation vs bound pairing is C03.",
    note="Not universal: everything outside the listed rules is not claimed. F11/F12 are recorded in known_findings.txt.", ref="5 C20"),
+ "C14": dict(level="other", technique="decision model of the strip predicate over all derived sets vs the documentation; abstract interpretation of the wrappers and of `build` (strip coverage, mutation confinement, emission order)",
+   text="The strip predicate is extracted as a function of (attribute name, derived set) and compared with the documentation's assignment for all 128 sets of derived traits: derive_ex always; default / debug iff derived; a comparison attribute iff some derived trait is affected by it; only single-identifier names; never a foreign name; and equal to the parse gate. The two wrappers remove attributes from exactly the item, its variants and their fields, mutate nothing else, and return the core's result; cores take the item by shared reference; `build` emits the item before the generated tokens or their compile error and the entry point keeps the original tokens on a parse error.",
+   note="ToTokens for syn items re-emits the parsed item faithfully (trusted).", ref="5 C14"),
+ "C15": dict(level="other", technique="call-graph and abstract-interpretation rules on the entry paths, argument merging and per-entry emission; recognition gate over all 31 derived sets",
+   text="Both proc-macro entry points reach the same two cores, which are called with the macro arguments (Some/None), the input item (or a field-by-field copy of the derive input) and a fresh helper-attribute set; argument lists are merged macro-arguments-first then derive_ex attributes in source order; entries are one per listed trait in list order with dump = list-level OR own; each entry is emitted in sequence and a failing one does not abort the others; an attribute is recognised whenever a derived trait is affected by it, for all 31 derived sets (the F1 class).",
+   note="Token equality of the two entry points' output is a consequence of sharing the cores with the same inputs; it is not evaluated on concrete items.", ref="5 C15"),
+ "C16": dict(level="other", technique="rustc_private MIR driver (resolved callees, assert terminators, CFG cycles, statics) + abstract interpretation of every builder role for panic paths",
+   text="On rustc's MIR of the macro crate, from both entry points and every local impl of a foreign trait (callbacks): panic-capable sites by class (panic, unwrap, expect, index/bounds, arithmetic, mk_ident, Ident::new, parse_quote) must not exceed a justified inventory; hash containers are used through lookup/insert only; no ambient state, no mutable static; every CFG cycle in hand-written code is driven by a finite iterator over the input; one justified recursion. The guards of the index / unreachable sites are re-checked by evaluating every builder role (arities 0..3 where indexing occurs): no path may reach a panic. Every bail! carries a literal message; the entry functions contain no panic-capable call.",
+   note="Dependencies (syn, quote, proc-macro2, structmeta) are trusted apart from the listed APIs; derive-generated parsers are trusted to terminate. Output well-formedness is C20.", ref="5 C16"),
+ "C19": dict(level="other", technique="abstract interpretation of per-entry result handling in both cores and of the impl-item builder with and without dump",
+   text="In both cores: without dump the builder's tokens are emitted as they are; with dump an error whose message is formatted (one placeholder) from that very token value; a builder error becomes its own compile_error; no case aborts other entries. The entry's dump flag is list-level OR item-level. On impl items, configuration by configuration, the dumped message is formatted from exactly the tokens the non-dump path returns.",
+   note="Display for TokenStream is trusted to print the tokens.", ref="5 C19"),
  "C17": dict(level="other", technique="abstract interpretation + obligation extraction from the generated checker function",
    text="On every path of the Eq body builder the generated checker contains, per compared field, one call of a local function whose type parameter is bounded by Eq on the field or on its key; nothing is generated exactly for ignored and by-compared fields (compared with the reference on all 2^20 states); the checker is emitted as a function item next to the impl so that rustc type-checks it.",
    note="Relies on rustc rejecting the Eq-bounded call for non-Eq types (language semantics).", ref="5 C17"),
@@ -68,7 +80,7 @@ for p in props:
         "thorough_cmd": f"./check {pid} --tier thorough",
         "evidence_file": f"/verif/evidence/{pid}.json",
         "replay_cmd_template": f"./check {pid} --replay {{path}}",
-        "engine": "genlint",
+        "engine": "genlint+mirfacts" if pid == "C16" else "genlint",
         "level_claimed": {"category": c["level"], "text": c["text"], "design_ref": f"DESIGN.md section {c['ref']}"},
         "level_note": c["note"],
         "technique": c["technique"],
@@ -80,6 +92,7 @@ m = {
            "baseline_off_cmd": "cd /repo && cargo test --workspace --no-fail-fast --offline", "source_commits": [], "add_only": True},
  "engines": [
    {"name": "genlint", "path": "/verif/genlint", "serves_properties": sorted(CHECKS.keys()), "kind_free_text": "syn front end + path-sensitive abstract interpreter of the generator + schematic-instance printer + term normaliser for generated code + rule layers"},
+   {"name": "mirfacts", "path": "/verif/mirfacts", "serves_properties": ["C16"], "kind_free_text": "rustc_private driver (nightly) dumping resolved call sites, assert terminators, CFG cycles with their driving iterators and statics of the macro crate; injected with RUSTC_WORKSPACE_WRAPPER under cargo +nightly check in a fresh target dir"},
  ],
  "checks": checks,
  "notes": "Static analysis only. Fix commits in /repo (unguarded, message starts with 'fix:') are listed in known_findings.txt as 'fixed:' entries.",
